@@ -81,6 +81,22 @@ theorem flatRev_reverseExp (budget : Nat) : ∀ (s : Sc) (out : List Item),
     · rfl
 
 
+theorem flatRev_stepPlain (st : PassSt) (v : Leaf) : flatRev (stepPlain st v).out = flatRev st.out ++ [v] := by
+  unfold stepPlain
+  split
+  · rename_i sid s rest hcur hout
+    have h := consume_fwd s v (st.i == st.lastEnd + 1 && st.lastEnd != 0)
+    cases hc : consumeEdgeNode s v true (st.i == st.lastEnd + 1 && st.lastEnd != 0) with
+    | mk ok s1 =>
+      rw [hc] at h
+      simp only [hc]
+      cases ok
+      · simp only [Bool.false_eq_true, if_false]
+        rw [flatRev_orphan]
+        simp_all [flatRev, Item.leaves]
+      · simp_all [flatRev, Item.leaves]
+  · exact flatRev_orphan st.out v
+
 theorem flatRev_stepPass (st : PassSt) (v : Leaf) (b : Option (Int × Sc))
     (hb : ∀ p, b = some p → p.2.nodes = []) :
     flatRev (stepPass st v b).out = flatRev st.out ++ [v] := by
@@ -95,25 +111,13 @@ theorem flatRev_stepPass (st : PassSt) (v : Leaf) (b : Option (Int × Sc))
       rw [hc] at h
       cases ok
       · simp only [Bool.false_eq_true, if_false]
-        exact flatRev_orphan st.out v
+        exact flatRev_stepPlain st v
       · simp only [if_true]
         have hr := flatRev_reverseExp (if st.i > 1 then st.i - 1 - (if st.cur = true then st.i - 1 else st.lastEnd) else 0) s1 st.out
         simp only [flatRev, Item.leaves]
         rw [hr]
         simp_all
-  · split
-    · rename_i sid s rest hcur hout
-      have h := consume_fwd s v (st.i == st.lastEnd + 1 && st.lastEnd != 0)
-      cases hc : consumeEdgeNode s v true (st.i == st.lastEnd + 1 && st.lastEnd != 0) with
-      | mk ok s1 =>
-        rw [hc] at h
-        simp only [hc]
-        cases ok
-        · simp only [Bool.false_eq_true, if_false]
-          rw [flatRev_orphan]
-          simp_all [flatRev, Item.leaves]
-        · simp_all [flatRev, Item.leaves]
-    · exact flatRev_orphan st.out v
+  · exact flatRev_stepPlain st v
 
 theorem flatRev_expandShortcuts : ∀ (slots : List (Leaf × Option (Int × Sc))) (st : PassSt),
     (∀ q ∈ slots, ∀ p, q.2 = some p → p.2.nodes = []) →
@@ -579,6 +583,24 @@ theorem allOk_reverseExp (budget : Nat) : ∀ (s : Sc) (out : List Item), ScOk s
           exact ih s' rest hso (fun x hx => ho x (List.mem_cons_of_mem _ hx))
     · exact ⟨hs, ho⟩
 
+theorem allOk_stepPlain (st : PassSt) (v : Leaf) (h : AllOk st.out) : AllOk (stepPlain st v).out := by
+  unfold stepPlain
+  split
+  · rename_i sid s rest hcur hout
+    have hs : ScOk s := h (Item.sc sid s) (by rw [hout]; exact List.mem_cons_self)
+    have hrest : AllOk rest := fun x hx => h x (by rw [hout]; exact List.mem_cons_of_mem _ hx)
+    have hso := consume_ok s v true (st.i == st.lastEnd + 1 && st.lastEnd != 0) hs
+    cases hc : consumeEdgeNode s v true (st.i == st.lastEnd + 1 && st.lastEnd != 0) with
+    | mk ok s1 =>
+      rw [hc] at hso
+      simp only [hc]
+      cases ok
+      · simp only [Bool.false_eq_true, if_false]
+        exact allOk_orphan _ v (allOk_cons hso hrest)
+      · simp only [if_true]
+        exact allOk_cons hso hrest
+  · exact allOk_orphan st.out v h
+
 theorem allOk_stepPass (st : PassSt) (v : Leaf) (b : Option (Int × Sc))
     (hb : ∀ p, b = some p → p.2.nodes = []) (h : AllOk st.out) : AllOk (stepPass st v b).out := by
   unfold stepPass
@@ -594,27 +616,11 @@ theorem allOk_stepPass (st : PassSt) (v : Leaf) (b : Option (Int × Sc))
       rw [hc] at hso
       cases ok
       · simp only [Bool.false_eq_true, if_false]
-        exact allOk_orphan st.out v h
+        exact allOk_stepPlain st v h
       · simp only [if_true]
         have hr := allOk_reverseExp (if st.i > 1 then st.i - 1 - (if st.cur = true then st.i - 1 else st.lastEnd) else 0) s1 st.out hso h
         exact allOk_cons hr.1 hr.2
-  · split
-    · rename_i sid s rest hcur hout
-      have hs : ScOk s := by
-        have := h (Item.sc sid s) (by rw [hout]; exact List.mem_cons_self)
-        exact this
-      have hrest : AllOk rest := fun x hx => h x (by rw [hout]; exact List.mem_cons_of_mem _ hx)
-      have hso := consume_ok s v true (st.i == st.lastEnd + 1 && st.lastEnd != 0) hs
-      cases hc : consumeEdgeNode s v true (st.i == st.lastEnd + 1 && st.lastEnd != 0) with
-      | mk ok s1 =>
-        rw [hc] at hso
-        simp only [hc]
-        cases ok
-        · simp only [Bool.false_eq_true, if_false]
-          exact allOk_orphan _ v (allOk_cons hso hrest)
-        · simp only [if_true]
-          exact allOk_cons hso hrest
-    · exact allOk_orphan st.out v h
+  · exact allOk_stepPlain st v h
 
 theorem allOk_expandShortcuts : ∀ (slots : List (Leaf × Option (Int × Sc))) (st : PassSt),
     (∀ q ∈ slots, ∀ p, q.2 = some p → p.2.nodes = []) → AllOk st.out →
@@ -1514,11 +1520,12 @@ theorem C08_expand_zero_count_refuted :
 
 /-! ## Own nodes standing in for copies (`_keep_own_nodes`) -/
 
-theorem keepZip_vals : ∀ (own vals : List Leaf), (keepZip own vals).map (·.val) = vals.map (·.val)
+theorem keepZip_vals (oi ni : List Nat) : ∀ (own vals : List Leaf),
+    (keepZip oi ni own vals).map (·.val) = vals.map (·.val)
   | _, [] => by cases ‹List Leaf› <;> simp [keepZip]
   | [], v :: vs => by simp [keepZip]
   | o :: own, v :: vs => by
-    simp only [keepZip, List.map_cons, keepZip_vals own vs, List.cons.injEq, and_true]
+    simp only [keepZip, List.map_cons, keepZip_vals oi ni own vs, List.cons.injEq, and_true]
     split
     · rename_i h
       simp only [Bool.and_eq_true, beq_iff_eq] at h
@@ -1527,11 +1534,7 @@ theorem keepZip_vals : ∀ (own vals : List Leaf), (keepZip own vals).map (·.va
 
 /-- standing in never changes a value: the list is rebuilt from nodes that hold exactly the new values -/
 theorem C08_keep_own_values (own vals : List Leaf) :
-    (keepOwnNodes own vals).map (·.val) = vals.map (·.val) := by
-  unfold keepOwnNodes
-  split
-  · rfl
-  · exact keepZip_vals own vals
+    (keepOwnNodes own vals).map (·.val) = vals.map (·.val) := keepZip_vals _ _ own vals
 
 /-- **C08_recompress for the whole of `update_with_new_values`** (own nodes standing in for copies of themselves,
     as the data-block importances hand them in): for ALL shortcut lists, ALL own node lists and ALL new value
@@ -1542,20 +1545,37 @@ theorem C08_recompress_full (scs : List (Int × Sc)) (own vals : List Leaf) :
   obtain ⟨es, vs, h1, h2, h3⟩ := C08_recompress scs (keepOwnNodes own vals)
   exact ⟨es, vs, h1, h2, by rw [← C08_keep_own_values own vals]; exact h3⟩
 
-/-- an unedited list handed in as copies (any relabelling `copy` that keeps type and value, with fresh identities)
-    is rebuilt from its own nodes, all of them, in order — so every shortcut can be bound again and tokens, paddings
-    and comments stay -/
+theorem keepZip_copies (oi ni : List Nat) (copy : Leaf → Leaf)
+    (hcopy : ∀ o, (copy o).ty = o.ty ∧ (copy o).val = o.val) :
+    ∀ (own : List Leaf), (∀ o ∈ own, oi.contains (copy o).id = false ∧ ni.contains o.id = false) →
+      keepZip oi ni own (own.map copy) = own
+  | [], _ => rfl
+  | o :: rest, h => by
+    have ho := h o List.mem_cons_self
+    simp only [List.map_cons, keepZip, ho.1, ho.2, (hcopy o).1, (hcopy o).2, Bool.not_false, beq_self_eq_true,
+      Bool.and_self, if_true, keepZip_copies oi ni copy hcopy rest (fun x hx => h x (List.mem_cons_of_mem _ hx))]
+
+/-- an unedited list handed in as copies (any relabelling `copy` that keeps type and value, with identities that
+    are not identities of the list) is rebuilt from its own nodes, all of them, in order — so every shortcut can be
+    bound again and tokens, paddings and comments stay -/
 theorem C08_keep_own_unedited (own : List Leaf) (copy : Leaf → Leaf)
     (hcopy : ∀ o, (copy o).ty = o.ty ∧ (copy o).val = o.val)
-    (hfresh : (own.map copy).any (fun v => own.any (fun o => o.id == v.id)) = false) :
-    keepOwnNodes own (own.map copy) = own := by
+    (hfresh : ∀ o ∈ own, (own.map (·.id)).contains (copy o).id = false ∧
+      ((own.map copy).map (·.id)).contains o.id = false) :
+    keepOwnNodes own (own.map copy) = own := keepZip_copies _ _ copy hcopy own hfresh
+
+/-- standing in is repeatable (what makes a second write rebuild the same list): the own nodes handed in again are
+    kept as they are -/
+theorem C08_keep_own_idempotent (own : List Leaf) : keepOwnNodes own own = own := by
   unfold keepOwnNodes
-  rw [hfresh]
-  simp only [Bool.false_eq_true, if_false]
-  clear hfresh
-  induction own with
-  | nil => rfl
+  suffices h : ∀ (oi ni : List Nat) (l : List Leaf), (∀ o ∈ l, oi.contains o.id = true) → keepZip oi ni l l = l by
+    exact h _ _ own (fun o ho => by simp only [List.contains_iff_mem, List.mem_map]; exact ⟨o, ho, rfl⟩)
+  intro oi ni l
+  induction l with
+  | nil => intro _; rfl
   | cons o rest ih =>
-    simp only [List.map_cons, keepZip, (hcopy o).1, (hcopy o).2, beq_self_eq_true, Bool.and_self, if_true, ih]
+    intro h
+    simp only [keepZip, h o List.mem_cons_self, Bool.not_true, Bool.false_and, Bool.false_eq_true, if_false,
+      ih (fun x hx => h x (List.mem_cons_of_mem _ hx))]
 
 end MontePyVerif.C08
